@@ -2,8 +2,16 @@
 
 use std::fmt::Debug;
 use std::io::ErrorKind;
+#[cfg(not(mainline_verif))]
 use std::net::{SocketAddr, SocketAddrV4, UdpSocket};
+#[cfg(not(mainline_verif))]
 use std::time::{Duration, Instant};
+#[cfg(mainline_verif)]
+use {
+    crate::verif::{Instant, UdpSocket},
+    std::net::{SocketAddr, SocketAddrV4},
+    std::time::Duration,
+};
 use tracing::{debug, trace, warn};
 
 use crate::common::{ErrorSpecific, Message, MessageType, RequestSpecific, ResponseSpecific};
@@ -317,6 +325,24 @@ impl KrpcSocket {
         self.socket.send_to(&message.to_bytes()?, address)?;
         trace!(context = "socket_message_sending", message = ?message);
         Ok(())
+    }
+}
+
+#[cfg(mainline_verif)]
+impl KrpcSocket {
+    pub(crate) fn verif_snapshot(&self) -> crate::verif::SocketSnap {
+        crate::verif::SocketSnap {
+            next_tid: self.inflight_requests.next_tid,
+            inflight: self
+                .inflight_requests
+                .requests
+                .iter()
+                .map(|r| (r.tid, r.to, r.sent_at.elapsed().as_nanos() as u64))
+                .collect(),
+            request_timeout_ns: self.inflight_requests.request_timeout().as_nanos() as u64,
+            poll_interval_ns: self.poll_interval.as_nanos() as u64,
+            server_mode: self.server_mode,
+        }
     }
 }
 
